@@ -38,7 +38,11 @@ func main() {
 	all := fs.Bool("all", false, "all properties")
 	only := fs.String("only", "", "selftest: only this mutant")
 	verbose := fs.Bool("v", false, "verbose")
+	fast := fs.Bool("fast", false, "development: first solver only")
 	fs.Parse(os.Args[2:])
+	if *fast {
+		solvers = solvers[:1]
+	}
 	if *tier == "" {
 		*tier = "quick"
 	}
